@@ -20,6 +20,19 @@ pub struct GridSpec {
 pub fn run_grid(ctx: &Ctx, spec: GridSpec) {
     let t0 = Instant::now();
     let n = spec.cfgs.len();
+    if let Ok(ix) = std::env::var("VERIF_TRACE") {
+        // debugging aid: print the canonical execution of one configuration of this leg
+        if let Some(cfg) = ix.parse::<usize>().ok().and_then(|i| spec.cfgs.get(i)) {
+            eprintln!("--- canonical trace of {} cfg {:?}", spec.name, cfg);
+            if let Ok(rec) = run_one::<AsWorld>(cfg, &[], true) {
+                eprintln!("{}", rec.labels.join(" "));
+                for l in &rec.outcome.log {
+                    eprintln!("{}", l);
+                }
+                eprintln!("violations: {:?}", rec.outcome.violations);
+            }
+        }
+    }
     let results: Vec<Option<ExploreStats>> = vcommon::par_map(&spec.cfgs, vcommon::ncpu(), |_, cfg| {
         if t0.elapsed().as_secs_f64() > spec.wall_cap_s {
             return None;
@@ -108,4 +121,26 @@ pub fn replay(ctx: &Ctx, r: &serde_json::Value) {
     if hits == 2 {
         ctx.violation(r["leg"].as_str().unwrap_or("replay"), sig, d.clone());
     }
+}
+
+/// Cartesian grid of configurations over scripts x capacities x budgets x modes.
+pub fn grid(scripts: &[(Vec<(usize, crate::world::Step)>, usize)], caps: &[usize], budgets: &[usize], modes: &[crate::world::Mode], credit: &[usize]) -> Vec<Cfg> {
+    let mut out = vec![];
+    for (script, remotes) in scripts {
+        for &cap in caps {
+            for &budget in budgets {
+                for &mode in modes {
+                    for &cr in credit {
+                        let mut c = Cfg::basic(script.clone(), *remotes);
+                        c.cap = cap;
+                        c.budget = budget;
+                        c.mode = mode;
+                        c.credit = cr;
+                        out.push(c);
+                    }
+                }
+            }
+        }
+    }
+    out
 }
